@@ -49,6 +49,8 @@ class C05Spec(explore.Spec):
             roots.append(tuple(alpha.rx(t[n]) for n in ("PAo", "CA0", "CA1", "SA0", "WA", "PB", "CB0")))
             # A id-assigned only (never presented), asleep
             roots.append(tuple(alpha.rx(t[n]) for n in ("IDR", "CA0", "CA1", "WA")))
+            # A asleep with one child only: children presented afterwards are 'late' until the next wake-up
+            roots.append(tuple(alpha.rx(t[n]) for n in ("PA", "CA0", "SA0", "WA")))
         return roots
 
     def new_monitor(self, cfg):
